@@ -492,7 +492,22 @@ func (g *Gen) consumerAct() {
 	}
 	svc := pickStr(g, svcs)
 	if g.useModSvcCalls && g.chance(0.25) {
-		g.submit(g.tx(consumer, MsgOp{T: "call", Svc: types.OraclePriceServiceName, Providers: []string{acctRef(consumer)}, Input: goodInput, FeeCap: "10stake", Timeout: 1}), 0)
+		in := []string{goodInput, goodInput, `{"header":{},"body":{"pair":"ugold-stake"}}`, `{"header":{},"body":{"pair":"silver-stake"}}`,
+			`{"header":{},"body":{"mode":"bad"}}`, `{"header":{},"body":{"mode":"err"}}`}[g.mrng.Intn(6)]
+		capv := []string{"10stake", "10stake", "1stake", "2000stake"}[g.mrng.Intn(4)]
+		m := MsgOp{T: "call", Svc: types.OraclePriceServiceName, Providers: []string{acctRef(consumer)}, Input: in, FeeCap: capv, Timeout: 1}
+		switch r := g.mrng.Float64(); {
+		case r < 0.15:
+			m.Super = true // the flags of the message are the caller's: the module-reserved service is served as a plain one-shot call
+		case r < 0.25:
+			m.Repeated, m.Freq, m.Total = true, 1, 3
+		}
+		if g.mrng.Float64() < 0.2 {
+			// two such calls in one transaction (the second context id differs by its message index)
+			g.submit(g.tx(consumer, m, m), 0)
+		} else {
+			g.submit(g.tx(consumer, m), 0)
+		}
 		g.x.stats.inc("probe_modsvc_call")
 		return
 	}
